@@ -246,8 +246,8 @@ pub fn run(ctx: &Ctx) {
     ctx.assume("restricted generator profiles while findings are listed (see C01)");
     let restricted = ctx.avoid("restricted-profiles");
     let (cases, prefix, len) = match ctx.tier {
-        Tier::Quick => (12000, 5, 14),
-        Tier::Thorough => (300000, 10, 50),
+        Tier::Quick => (40000, 5, 14),
+        Tier::Thorough => (1000000, 10, 50),
     };
     let enc = |c: &Case| serde_json::to_value(c).unwrap_or(Value::Null);
     if restricted {
